@@ -854,6 +854,17 @@ def enumerate_api(tier):
                 k += 1
                 pre = [['create_joint_distribution', _lcg(k * 3 + 1, 8)]] if (j % 3 or st == 'pheno_block') else []
                 yield dict(m=st, steps=pre + [[fn, _lcg(k * 11 + j, 8)]], twice=False)
+    yield from _enumerate_covariate_effects(tier)
+
+
+def _enumerate_covariate_effects(tier):
+    """add_covariate_effect on every start model with many argument draws: the bounds and initial estimates of
+    the new parameters depend on the DATA (range of the covariate), so the well-formedness of the result has to
+    be looked at for covariates of every scale and for every effect type"""
+    reps = 12 if tier == 'quick' else 80
+    for mi, st in enumerate(start_names()):
+        for j in range(reps):
+            yield dict(m=st, steps=[['add_covariate_effect', _lcg(7000 + 13 * j + 101 * mi, 8)]], twice=False)
 
 
 def enumerate_eq(tier):
